@@ -17,7 +17,13 @@ var (
 	lvTop    = log.RegisterLevel(998, "Top")
 	lvOver   = log.RegisterLevel(1200, "Over") // a user-registered level above the built-in MAX
 	tagC01   = regTag("_c01_probe")
+	// user-registered ALIASES: a second name for the code of an existing level (ranges are over level codes)
+	lvWarning = log.RegisterLevel(400, "Warning")
+	lvSevere  = log.RegisterLevel(500, "severe")
+	lvFine    = log.RegisterLevel(200, "FINE")
 )
+
+var aliasLevels = []lvl{{"WARNING", 400, lvWarning}, {"SEVERE", 500, lvSevere}, {"FINE", 200, lvFine}}
 
 type lvl struct {
 	name string
@@ -33,6 +39,11 @@ var allLevels = []lvl{
 
 func levelByName(n string) (lvl, bool) {
 	for _, l := range allLevels {
+		if l.name == strings.ToUpper(n) {
+			return l, true
+		}
+	}
+	for _, l := range aliasLevels {
 		if l.name == strings.ToUpper(n) {
 			return l, true
 		}
@@ -158,6 +169,82 @@ func init() {
 	shapes = append(shapes, "")                         // empty = everything
 	shapes = append(shapes, "DEBUG~OVER", "notice~Top") // explicit upper bounds that are user-registered levels (above MAX, just below it)
 	loggerRanges := []string{"", "INFO", "DEBUG~ERROR", "WARN~WARN", "notice", "TRACE~TOP"}
+	chainCheck := func(c chainCase) (string, []Violation, int) {
+		confReset()
+		conf := map[string]string{}
+		typ, layout, _ := strings.Cut(c.Kind, "+")
+		conf["logger.root.type"] = typ
+		if c.Logger != "" {
+			conf["logger.root.level"] = c.Logger
+		}
+		if layout != "" {
+			conf["logger.root.layout.type"] = "TextLayout"
+		}
+		if typ == "AsyncLogger" {
+			conf["logger.root.bufferSize"] = "100"
+			conf["logger.root.bufferFullPolicy"] = "Block"
+		}
+		var rr []refRange
+		for i, r := range c.Refs {
+			conf[fmt.Sprintf("appender.r%d.type", i)] = "Rec"
+			if len(c.Refs) == 1 {
+				conf["logger.root.appenderRef.ref"] = "r0"
+				if r != "" {
+					conf["logger.root.appenderRef.level"] = r
+				}
+			} else {
+				conf[fmt.Sprintf("logger.root.appenderRef[%d].ref", i)] = fmt.Sprintf("r%d", i)
+				if r != "" {
+					conf[fmt.Sprintf("logger.root.appenderRef[%d].level", i)] = r
+				}
+			}
+			rr = append(rr, refParseRange(r))
+		}
+		key := fmt.Sprintf("%s level=%q refs=%q", c.Kind, c.Logger, c.Refs)
+		err, pn := safeRefresh(conf)
+		if pn != nil || err != nil {
+			return "refresh-failed", []Violation{{Clause: "valid-config-rejected", Key: key, Detail: fmt.Sprintf("Refresh(%s): err=%v panic=%v", confString(conf), err, pn)}}, 1
+		}
+		lr := refParseRange(c.Logger)
+		eff := refEffective(rr)
+		ctx := context.Background()
+		var v []Violation
+		evLevels := append(append([]lvl(nil), allLevels...), aliasLevels...)
+		for _, l := range evLevels {
+			if pn := safeCall(func() { log.Record(ctx, l.l, tagC01, 1, log.Msg("ev-"+l.name)) }); pn != nil {
+				v = append(v, Violation{Clause: "log-call-panicked", Key: key, Detail: fmt.Sprintf("Record at %s panicked: %v", l.name, pn)})
+			}
+		}
+		if pn := safeCall(log.Destroy); pn != nil {
+			v = append(v, Violation{Clause: "destroy-panicked", Key: key, Detail: fmt.Sprint(pn)})
+		}
+		for i := range c.Refs {
+			got := map[string]int{}
+			for _, it := range recStore[fmt.Sprintf("r%d", i)] {
+				id := it.ID
+				if it.Kind == "W" { // logger-level layout: formatted line
+					j := strings.Index(id, "msg=ev-")
+					if j < 0 {
+						v = append(v, Violation{Clause: "unknown-delivery", Key: key, Detail: fmt.Sprintf("appender r%d received %q", i, id)})
+						continue
+					}
+					id = strings.TrimSpace(id[j+4:])
+				}
+				got[id]++
+			}
+			for _, l := range evLevels {
+				want := 0
+				if lr.has(l.code) && eff[i].has(l.code) {
+					want = 1
+				}
+				if g := got["ev-"+l.name]; g != want {
+					v = append(v, Violation{Clause: "delivery-count", Key: key,
+						Detail: fmt.Sprintf("event at %s: appender r%d (level %q, effective [%d,%d)) received it %d time(s), want %d; logger range %q", l.name, i, c.Refs[i], eff[i].min, eff[i].max, g, want, c.Logger)})
+				}
+			}
+		}
+		return recSummary(), v, len(evLevels)
+	}
 	definePart("C01", "c01/reference-chaining", "qt",
 		fmt.Sprintf("every sequence of 1-3 (thorough 4) appender references over %d level shapes x %d logger ranges x 12 event levels through Refresh and Record; async/layout kinds on 1-2 references", len(shapes), len(loggerRanges)),
 		func(tier string, yield func(chainCase)) {
@@ -189,81 +276,29 @@ func init() {
 			}
 			rec(nil)
 		},
-		func(c chainCase) (string, []Violation, int) {
-			confReset()
-			conf := map[string]string{}
-			typ, layout, _ := strings.Cut(c.Kind, "+")
-			conf["logger.root.type"] = typ
-			if c.Logger != "" {
-				conf["logger.root.level"] = c.Logger
-			}
-			if layout != "" {
-				conf["logger.root.layout.type"] = "TextLayout"
-			}
-			if typ == "AsyncLogger" {
-				conf["logger.root.bufferSize"] = "100"
-				conf["logger.root.bufferFullPolicy"] = "Block"
-			}
-			var rr []refRange
-			for i, r := range c.Refs {
-				conf[fmt.Sprintf("appender.r%d.type", i)] = "Rec"
-				if len(c.Refs) == 1 {
-					conf["logger.root.appenderRef.ref"] = "r0"
-					if r != "" {
-						conf["logger.root.appenderRef.level"] = r
-					}
-				} else {
-					conf[fmt.Sprintf("logger.root.appenderRef[%d].ref", i)] = fmt.Sprintf("r%d", i)
-					if r != "" {
-						conf[fmt.Sprintf("logger.root.appenderRef[%d].level", i)] = r
-					}
+		chainCheck)
+
+	// ---- (b') the same through user-registered alias names (two names, one code) ---------------
+	aliasShapes := []string{"WARN", "warning", "WARN~ERROR", "Warning~severe", "ERROR", "SEVERE", "fine", "DEBUG~warning", "INFO", ""}
+	definePart("C01", "c01/alias-levels", "qt",
+		fmt.Sprintf("every sequence of 1-3 appender references over %d level shapes naming built-in levels and user-registered aliases of the same codes x 2 logger ranges x 15 event levels", len(aliasShapes)),
+		func(tier string, yield func(chainCase)) {
+			var rec func(cur []string)
+			rec = func(cur []string) {
+				if len(cur) > 0 {
+					yield(chainCase{Kind: "Logger", Logger: "", Refs: append([]string(nil), cur...)})
+					yield(chainCase{Kind: "Logger", Logger: "fine~SEVERE", Refs: append([]string(nil), cur...)})
 				}
-				rr = append(rr, refParseRange(r))
-			}
-			key := fmt.Sprintf("%s level=%q refs=%q", c.Kind, c.Logger, c.Refs)
-			err, pn := safeRefresh(conf)
-			if pn != nil || err != nil {
-				return "refresh-failed", []Violation{{Clause: "valid-config-rejected", Key: key, Detail: fmt.Sprintf("Refresh(%s): err=%v panic=%v", confString(conf), err, pn)}}, 1
-			}
-			lr := refParseRange(c.Logger)
-			eff := refEffective(rr)
-			ctx := context.Background()
-			var v []Violation
-			for _, l := range allLevels {
-				if pn := safeCall(func() { log.Record(ctx, l.l, tagC01, 1, log.Msg("ev-"+l.name)) }); pn != nil {
-					v = append(v, Violation{Clause: "log-call-panicked", Key: key, Detail: fmt.Sprintf("Record at %s panicked: %v", l.name, pn)})
+				if len(cur) == 3 {
+					return
+				}
+				for _, s := range aliasShapes {
+					rec(append(cur, s))
 				}
 			}
-			if pn := safeCall(log.Destroy); pn != nil {
-				v = append(v, Violation{Clause: "destroy-panicked", Key: key, Detail: fmt.Sprint(pn)})
-			}
-			for i := range c.Refs {
-				got := map[string]int{}
-				for _, it := range recStore[fmt.Sprintf("r%d", i)] {
-					id := it.ID
-					if it.Kind == "W" { // logger-level layout: formatted line
-						j := strings.Index(id, "msg=ev-")
-						if j < 0 {
-							v = append(v, Violation{Clause: "unknown-delivery", Key: key, Detail: fmt.Sprintf("appender r%d received %q", i, id)})
-							continue
-						}
-						id = strings.TrimSpace(id[j+4:])
-					}
-					got[id]++
-				}
-				for _, l := range allLevels {
-					want := 0
-					if lr.has(l.code) && eff[i].has(l.code) {
-						want = 1
-					}
-					if g := got["ev-"+l.name]; g != want {
-						v = append(v, Violation{Clause: "delivery-count", Key: key,
-							Detail: fmt.Sprintf("event at %s: appender r%d (level %q, effective [%d,%d)) received it %d time(s), want %d; logger range %q", l.name, i, c.Refs[i], eff[i].min, eff[i].max, g, want, c.Logger)})
-					}
-				}
-			}
-			return recSummary(), v, len(allLevels)
-		})
+			rec(nil)
+		},
+		chainCheck)
 
 	// ---- (c) entry points ------------------------------------------------------------------------
 	type epCase struct {
